@@ -472,6 +472,21 @@ def opPart : Rd String := do
     let sel := globs.flatMap (selectFiles pathHash cfg)
     pure (sel.foldl (fun acc p => acc ++ " " ++ hx p) s!"sel {sel.length}")
 
+/-- partition options from every source (flags, SLT_PARTITION_*, Buildkite), then the selection -/
+def opPartSrc : Rd String := do
+  let flagCount ← optStr
+  let flagId ← optStr
+  let sltCount ← optStr
+  let sltId ← optStr
+  let bkCount ← optStr
+  let bkId ← optStr
+  let globs ← listOf (listOf str)
+  match partitionFromSources { flagCount, flagId, sltCount, sltId, bkCount, bkId } with
+  | .error _ => pure "error"
+  | .ok cfg =>
+    let sel := globs.flatMap (selectFiles pathHash cfg)
+    pure (sel.foldl (fun acc p => acc ++ " " ++ hx p) s!"sel {sel.length}")
+
 def readCEv : Rd CEv := do
   match (← tok) with
   | "create" => .create <$> str
@@ -721,6 +736,7 @@ def dispatchOp (line : String) : String :=
       | "climulti" => opCliMulti.run rest
       | "part" => opPart.run rest
       | "partcfg" => opPartCfg.run rest
+      | "partsrc" => opPartSrc.run rest
       | "sip" => opSip.run rest
       | "frame" => opFrame.run rest
       | "testdir" => (do let _ ← nat; pure "distinct=1 same=1 exist=1 gone=1 par_ok=1 par_db=1 par_same=1 par_distinct=1 par_gone=1 parent_alive=1" : Rd String).run rest
